@@ -1200,8 +1200,11 @@ EGLPNUM_TYPENAME_QSLIB_INTERFACE int EGLPNUM_TYPENAME_QSdelete_rows (
 	rval = check_qsdata_pointer (p);
 	CHECKRVALG (rval, CLEANUP);
 
-	rval = EGLPNUM_TYPENAME_ILLlib_delrows (p->lp, p->basis, p->cache, num, dellist, &basis_ok,
-												 &cache_ok);
+	/* the stored solution survives a deletion of rows that are basic in the basis
+	 * it belongs to; p->basis is that basis only while the factorization of the
+	 * last solve is current (a basis loaded since then is another one) */
+	rval = EGLPNUM_TYPENAME_ILLlib_delrows (p->lp, p->basis, p->factorok ? p->cache : 0,
+											 num, dellist, &basis_ok, &cache_ok);
 	CHECKRVALG (rval, CLEANUP);
 
 	/* For now, just remove the basis - wait for pivotin */
